@@ -10,6 +10,7 @@ joined by `;` (`-` = no name).
 `fname.current <contents>`: the manifest number CURRENT names, or `err`.
 `fname.pass <wal|data|main> <live numbers joined by , or -> <walNo> <prevWal or -> <manifestNo> <names>`:
   one `1` (deleted) / `0` (kept) per name.
+`fname.missing <live numbers> <names>`: the live table numbers recovery reports missing (`-` = none).
 `fname.logs <minLog> <names>`: the WAL numbers recovery replays, joined by `,` (`-` = none).
 -/
 private def parseName (s : String) : Option Name :=
@@ -61,6 +62,12 @@ def fileNamesCmd : List String → Option String
       let L : Live := { live := live, walNo := w, prevWal := pw, manifestNo := m }
       some (String.ofList (names.map fun nm => if deletes L f nm then '1' else '0'))
     | _, _, _, _, _, _ => none
+  | ["fname.missing", live, names] =>
+    match parseNats live, parseNames names with
+    | some live, some names =>
+      let r := missingFiles live names
+      some (if r.isEmpty then "-" else ",".intercalate (r.map toString))
+    | _, _ => none
   | ["fname.logs", minLog, names] =>
     match minLog.toNat?, parseNames names with
     | some m, some names =>
